@@ -1,15 +1,32 @@
-//! Reference model of one stream (entries, last id, consumer groups). Filled in by C15/C16.
+//! Reference model of streams and consumer groups, written from the Redis documentation
+//! (no ferrous code inside): an ordered map of entries, the last id, and per group a cursor plus
+//! one pending map. Everything the implementation keeps in duplicate (length counters, two
+//! pending indexes, per-consumer counters) exists exactly once here.
 #![allow(dead_code)]
-use std::collections::BTreeMap;
+use super::keyspace::{strict_i64, Entry, Exp, Model, Pred, Val};
+use crate::resp::R;
+use std::collections::{BTreeMap, BTreeSet};
+use std::rc::Rc;
+
 pub type Bytes = Vec<u8>;
 pub type Id = (u64, u64);
+pub const MAX_ID: Id = (u64::MAX, u64::MAX);
+
+#[derive(Clone, Debug, PartialEq)]
+pub struct PelE {
+    pub consumer: Bytes,
+    pub count: u64,
+    /// realtime clock (ns) of the last delivery
+    pub last_delivery: i128,
+}
 
 #[derive(Clone, Debug, PartialEq, Default)]
 pub struct GroupM {
     pub last_delivered: Id,
-    /// id -> (consumer, delivery_count, last_delivery_real_ms)
-    pub pel: BTreeMap<Id, (Bytes, u64, u64)>,
-    pub consumers: BTreeMap<Bytes, ()>,
+    pub pel: BTreeMap<Id, PelE>,
+    /// consumers known to exist (creation by a read that delivered nothing is version-dependent,
+    /// so existence is only ever compared for owners of pending entries)
+    pub consumers: BTreeSet<Bytes>,
 }
 
 #[derive(Clone, Debug, PartialEq, Default)]
@@ -19,4 +36,456 @@ pub struct StreamM {
     /// greatest id ever added (never decreases)
     pub max_ever: Id,
     pub groups: BTreeMap<Bytes, GroupM>,
+}
+
+pub fn id_str(id: Id) -> Bytes { format!("{}-{}", id.0, id.1).into_bytes() }
+
+fn dec_u64(b: &[u8]) -> Option<u64> {
+    if b.is_empty() || b.len() > 20 || !b.iter().all(|c| c.is_ascii_digit()) { return None; }
+    std::str::from_utf8(b).ok()?.parse::<u64>().ok()
+}
+/// complete id "ms-seq"
+pub fn parse_id(b: &[u8]) -> Option<Id> {
+    let p = b.iter().position(|c| *c == b'-')?;
+    Some((dec_u64(&b[..p])?, dec_u64(&b[p + 1..])?))
+}
+/// Is `b` an id in the incomplete form ("ms" alone) that Redis completes?
+pub fn incomplete_id(b: &[u8]) -> bool { dec_u64(b).is_some() }
+
+fn entry_reply(id: Id, f: &[(Bytes, Bytes)]) -> (Id, Vec<(Bytes, Bytes)>) { let mut f = f.to_vec(); f.sort(); (id, f) }
+
+/// Does `r` encode exactly these entries, in this order (field order within an entry free)?
+pub fn entries_match(r: &R, want: &[(Id, Vec<(Bytes, Bytes)>)]) -> bool {
+    let a = match r { R::Arr(a) => a, R::NilArr => return want.is_empty(), _ => return false };
+    if a.len() != want.len() { return false; }
+    for (e, (id, f)) in a.iter().zip(want.iter()) {
+        let p = match e { R::Arr(p) if p.len() == 2 => p, _ => return false };
+        if p[0] != R::Bulk(id_str(*id)) { return false; }
+        let fl = match &p[1] { R::Arr(fl) => fl, _ => return false };
+        if fl.len() != f.len() * 2 { return false; }
+        let mut got: Vec<(Bytes, Bytes)> = Vec::new();
+        for c in fl.chunks(2) { match (&c[0], &c[1]) { (R::Bulk(k), R::Bulk(v)) => got.push((k.clone(), v.clone())), _ => return false } }
+        got.sort();
+        let mut w = f.clone(); w.sort();
+        if got != w { return false; }
+    }
+    true
+}
+
+fn entries_exp(want: Vec<(Id, Vec<(Bytes, Bytes)>)>) -> Exp {
+    let desc = format!("entries [{}]", want.iter().take(8).map(|(id, f)| format!("{}-{}({})", id.0, id.1, f.len())).collect::<Vec<_>>().join(", "));
+    let kind = if want.is_empty() { "emptyarr" } else { "arr" };
+    Exp::Pred(Pred { kind, desc, f: Rc::new(move |r| entries_match(r, &want)) })
+}
+
+/// XREAD / XREADGROUP reply: [[key, entries] ...] or nil when nothing is returned
+fn xread_exp(want: Vec<(Bytes, Vec<(Id, Vec<(Bytes, Bytes)>)>)>) -> Exp {
+    let desc = format!("per-stream entries [{}]", want.iter().map(|(k, e)| format!("{}: {}", crate::resp::escape(k), e.iter().take(8).map(|(id, _)| format!("{}-{}", id.0, id.1)).collect::<Vec<_>>().join(","))).collect::<Vec<_>>().join("; "));
+    let kind = if want.is_empty() { "nilarr" } else { "arr" };
+    Exp::Pred(Pred { kind, desc, f: Rc::new(move |r| {
+        match r {
+            R::NilArr | R::Nil => want.is_empty(),
+            R::Arr(a) => {
+                if a.len() != want.len() { return false; }
+                a.iter().zip(want.iter()).all(|(s, (k, e))| matches!(s, R::Arr(p) if p.len() == 2 && p[0] == R::Bulk(k.clone()) && entries_match(&p[1], e)))
+            }
+            _ => false,
+        }
+    }) })
+}
+
+fn int_like(r: &R) -> Option<i64> { match r { R::Int(i) => Some(*i), R::Bulk(b) => strict_i64(b), _ => None } }
+
+struct Count(Option<usize>);
+/// COUNT argument: None = malformed; Some(Count(None)) = unlimited
+fn parse_count(b: &[u8]) -> Option<i64> { strict_i64(b) }
+
+impl StreamM {
+    pub fn range(&self, lo: Id, hi: Id) -> Vec<(Id, Vec<(Bytes, Bytes)>)> {
+        if lo > hi { return vec![]; }
+        self.entries.range(lo..=hi).map(|(k, f)| entry_reply(*k, f)).collect()
+    }
+    pub fn after(&self, id: Id) -> Vec<(Id, Vec<(Bytes, Bytes)>)> {
+        self.entries.iter().filter(|(k, _)| **k > id).map(|(k, f)| entry_reply(*k, f)).collect()
+    }
+}
+
+fn stream_of<'a>(m: &'a Model, db: usize, key: &[u8]) -> Result<Option<&'a StreamM>, ()> {
+    match m.dbs[db].map.get(key) { None => Ok(None), Some(Entry { val: Val::Stream(s), .. }) => Ok(Some(s)), Some(_) => Err(()) }
+}
+
+fn upper(b: &[u8]) -> String { String::from_utf8_lossy(b).to_uppercase() }
+fn any_empty() -> Exp { Exp::AnyOf(vec![Exp::Is(R::Arr(vec![])), Exp::Is(R::NilArr)]) }
+
+/// Parsed XADD: (id argument, fields)
+fn xadd_parts(a: &[Bytes]) -> Option<(&Bytes, Vec<(Bytes, Bytes)>)> {
+    if a.len() < 5 || (a.len() - 3) % 2 != 0 { return None; }
+    Some((&a[2], a[3..].chunks(2).map(|c| (c[0].clone(), c[1].clone())).collect()))
+}
+
+struct ReadGroupArgs { group: Bytes, consumer: Bytes, count: Option<usize>, noack: bool, keys: Vec<Bytes>, ids: Vec<Bytes> }
+fn parse_xreadgroup(a: &[Bytes]) -> Option<ReadGroupArgs> {
+    if a.len() < 7 || upper(&a[1]) != "GROUP" { return None; }
+    let (group, consumer) = (a[2].clone(), a[3].clone());
+    let mut i = 4; let mut count = None; let mut noack = false;
+    loop {
+        if i >= a.len() { return None; }
+        match upper(&a[i]).as_str() {
+            "COUNT" => { let c = strict_i64(a.get(i + 1)?)?; if c < 0 { return None; } count = if c == 0 { None } else { Some(c as usize) }; i += 2; }
+            "NOACK" => { noack = true; i += 1; }
+            "STREAMS" => { i += 1; break; }
+            _ => return None,
+        }
+    }
+    let rest = &a[i..];
+    if rest.is_empty() || rest.len() % 2 != 0 { return None; }
+    let k = rest.len() / 2;
+    Some(ReadGroupArgs { group, consumer, count, noack, keys: rest[..k].to_vec(), ids: rest[k..].to_vec() })
+}
+
+struct ClaimArgs { ids: Vec<Id>, justid: bool, force: bool, other_opts: bool }
+fn parse_xclaim(a: &[Bytes]) -> Option<ClaimArgs> {
+    let mut r = ClaimArgs { ids: vec![], justid: false, force: false, other_opts: false };
+    let mut i = 5;
+    while i < a.len() {
+        if let Some(id) = parse_id(&a[i]) { if r.justid || r.force || r.other_opts { return None; } r.ids.push(id); i += 1; continue; }
+        match upper(&a[i]).as_str() {
+            "JUSTID" => { r.justid = true; i += 1; }
+            "FORCE" => { r.force = true; i += 1; }
+            "IDLE" | "TIME" | "RETRYCOUNT" => { r.other_opts = true; i += 2; }
+            _ => return None,
+        }
+    }
+    if r.ids.is_empty() { None } else { Some(r) }
+}
+
+fn pending_summary_exp(g: &GroupM) -> Exp {
+    let total = g.pel.len() as i64;
+    let min = g.pel.keys().next().copied();
+    let max = g.pel.keys().next_back().copied();
+    let mut per: BTreeMap<Bytes, i64> = BTreeMap::new();
+    for e in g.pel.values() { *per.entry(e.consumer.clone()).or_insert(0) += 1; }
+    let desc = format!("[{}, {:?}, {:?}, {:?}]", total, min, max, per.iter().map(|(c, n)| (crate::resp::escape(c), *n)).collect::<Vec<_>>());
+    Exp::Pred(Pred { kind: "arr", desc, f: Rc::new(move |r| {
+        let a = match r { R::Arr(a) if a.len() == 4 => a, _ => return false };
+        if a[0] != R::Int(total) { return false; }
+        let idok = |r: &R, want: Option<Id>| match want { None => matches!(r, R::Nil), Some(id) => *r == R::Bulk(id_str(id)) };
+        if !idok(&a[1], min) || !idok(&a[2], max) { return false; }
+        match &a[3] {
+            R::Nil | R::NilArr => per.is_empty(),
+            R::Arr(rows) => {
+                let mut got: BTreeMap<Bytes, i64> = BTreeMap::new();
+                for row in rows {
+                    match row { R::Arr(p) if p.len() == 2 => match (&p[0], int_like(&p[1])) { (R::Bulk(c), Some(n)) => { if got.insert(c.clone(), n).is_some() { return false; } } _ => return false }, _ => return false }
+                }
+                got == per
+            }
+            _ => false,
+        }
+    }) })
+}
+
+fn pending_rows_exp(rows: Vec<(Id, Bytes, i64, u64)>) -> Exp {
+    let desc = format!("rows {:?}", rows.iter().take(8).map(|(id, c, idle, n)| (format!("{}-{}", id.0, id.1), crate::resp::escape(c), *idle, *n)).collect::<Vec<_>>());
+    let kind = if rows.is_empty() { "emptyarr" } else { "arr" };
+    Exp::Pred(Pred { kind, desc, f: Rc::new(move |r| {
+        let a = match r { R::Arr(a) => a, R::NilArr => return rows.is_empty(), _ => return false };
+        if a.len() != rows.len() { return false; }
+        // the property fixes which ids are pending and who owns them; the idle and delivery-count
+        // columns are only required to be well-formed
+        a.iter().zip(rows.iter()).all(|(row, (id, c, _idle, _n))| match row {
+            R::Arr(p) if p.len() == 4 => p[0] == R::Bulk(id_str(*id)) && p[1] == R::Bulk(c.clone()) && matches!(p[2], R::Int(i) if i >= 0) && matches!(p[3], R::Int(i) if i >= 1),
+            _ => false,
+        })
+    }) })
+}
+
+fn idle_ms(real_ns: i128, last: i128) -> i64 { let d = real_ns - last; if d <= 0 { 0 } else { (d / 1_000_000) as i64 } }
+
+/// Range bound of XRANGE-style commands: "-" / "+" / complete id.
+fn bound(b: &[u8]) -> Option<Id> { match b { b"-" => Some((0, 0)), b"+" => Some(MAX_ID), _ => parse_id(b) } }
+
+pub fn expect(m: &Model, db: usize, name: &str, a: &[Bytes], now: u64) -> Option<Exp> {
+    let n = a.len();
+    let real_ns = now as i128 + m.real_off as i128;
+    Some(match name {
+        "XADD" => {
+            let (idarg, _fields) = match xadd_parts(a) { Some(p) => p, None => return Some(Exp::Err) };
+            let s = match stream_of(m, db, &a[1]) { Err(()) => return Some(Exp::Err), Ok(s) => s };
+            let (last, max_ever) = s.map_or(((0, 0), (0, 0)), |s| (s.last_id, s.max_ever));
+            if idarg.as_slice() == b"*" {
+                let floor = last.max(max_ever);
+                if floor == MAX_ID { return Some(Exp::Err); }
+                Exp::Pred(Pred { kind: "bulk", desc: format!("an id greater than {}-{}", floor.0, floor.1), f: Rc::new(move |r| matches!(r, R::Bulk(b) if parse_id(b).map_or(false, |id| id > floor && *b == id_str(id)))) })
+            } else {
+                match parse_id(idarg) {
+                    None => Exp::Err,
+                    Some((0, 0)) => Exp::Err,
+                    Some(id) if id <= last => Exp::Err,
+                    Some(id) => Exp::Is(R::Bulk(id_str(id))),
+                }
+            }
+        }
+        "XLEN" => {
+            if n != 2 { return Some(Exp::Err); }
+            match stream_of(m, db, &a[1]) { Err(()) => Exp::Err, Ok(s) => Exp::Is(R::Int(s.map_or(0, |s| s.entries.len()) as i64)) }
+        }
+        "XRANGE" | "XREVRANGE" => {
+            if n != 4 && n != 6 { return Some(Exp::Err); }
+            let count = if n == 6 { if upper(&a[4]) != "COUNT" { return Some(Exp::Err); } match parse_count(&a[5]) { Some(c) => Some(c), None => return Some(Exp::Err) } } else { None };
+            let (lo_arg, hi_arg) = if name == "XRANGE" { (&a[2], &a[3]) } else { (&a[3], &a[2]) };
+            let (lo, hi) = match (bound(lo_arg), bound(hi_arg)) { (Some(l), Some(h)) => (l, h), _ => return Some(Exp::Err) };
+            let s = match stream_of(m, db, &a[1]) { Err(()) => return Some(Exp::Err), Ok(s) => s };
+            match count { Some(c) if c < 0 => return Some(Exp::AnyOf(vec![Exp::Err, any_empty()])), Some(0) => return Some(any_empty()), _ => {} }
+            let mut v = s.map_or(vec![], |s| s.range(lo, hi));
+            if name == "XREVRANGE" { v.reverse(); }
+            if let Some(c) = count { v.truncate(c as usize); }
+            entries_exp(v)
+        }
+        "XREAD" => {
+            let mut i = 1; let mut count: Option<usize> = None;
+            loop {
+                if i >= n { return Some(Exp::Err); }
+                match upper(&a[i]).as_str() {
+                    "COUNT" => { match a.get(i + 1).and_then(|c| strict_i64(c)) { Some(c) if c >= 0 => { count = if c == 0 { None } else { Some(c as usize) }; } _ => return Some(Exp::Err) } i += 2; }
+                    "STREAMS" => { i += 1; break; }
+                    _ => return None, // BLOCK and friends: not modelled
+                }
+            }
+            let rest = &a[i..];
+            if rest.is_empty() || rest.len() % 2 != 0 { return Some(Exp::Err); }
+            let k = rest.len() / 2;
+            let mut want = Vec::new();
+            for j in 0..k {
+                let s = match stream_of(m, db, &rest[j]) { Err(()) => return Some(Exp::Err), Ok(s) => s };
+                let idb = &rest[k + j];
+                let after = if idb.as_slice() == b"$" { s.map_or((0, 0), |s| s.last_id) } else if incomplete_id(idb) { (dec_u64(idb).unwrap(), 0) } else { match parse_id(idb) { Some(id) => id, None => return Some(Exp::Err) } };
+                if let Some(s) = s { let mut v = s.after(after); if let Some(c) = count { v.truncate(c); } if !v.is_empty() { want.push((rest[j].clone(), v)); } }
+            }
+            xread_exp(want)
+        }
+        "XDEL" => {
+            if n < 3 { return Some(Exp::Err); }
+            let mut ids = BTreeSet::new();
+            for b in &a[2..] { match parse_id(b) { Some(id) => { ids.insert(id); } None => return Some(Exp::Err) } }
+            match stream_of(m, db, &a[1]) { Err(()) => Exp::Err, Ok(None) => Exp::Is(R::Int(0)), Ok(Some(s)) => Exp::Is(R::Int(ids.iter().filter(|id| s.entries.contains_key(id)).count() as i64)) }
+        }
+        "XTRIM" => {
+            if n < 4 || upper(&a[2]) != "MAXLEN" { return None; }
+            let (approx, narg) = match a[3].as_slice() { b"~" => (true, a.get(4)), b"=" => (false, a.get(4)), _ => (false, a.get(3)) };
+            let expect_n = if matches!(a[3].as_slice(), b"~" | b"=") { 5 } else { 4 };
+            if n != expect_n { return None; }
+            let maxlen = match narg.and_then(|b| strict_i64(b)) { Some(v) if v >= 0 => v as usize, _ => return Some(Exp::Err) };
+            match stream_of(m, db, &a[1]) {
+                Err(()) => Exp::Err,
+                Ok(None) => Exp::Is(R::Int(0)),
+                Ok(Some(s)) => { let ev = s.entries.len().saturating_sub(maxlen) as i64; if approx { Exp::IntRange(0, ev) } else { Exp::Is(R::Int(ev)) } }
+            }
+        }
+        "XGROUP" => {
+            if n < 2 { return Some(Exp::Err); }
+            match upper(&a[1]).as_str() {
+                "CREATE" => {
+                    if n != 5 && n != 6 { return Some(Exp::Err); }
+                    let mk = n == 6 && upper(&a[5]) == "MKSTREAM";
+                    if n == 6 && !mk { return None; }
+                    let s = match stream_of(m, db, &a[2]) { Err(()) => return Some(Exp::Err), Ok(s) => s };
+                    if a[4].as_slice() != b"$" && !incomplete_id(&a[4]) && parse_id(&a[4]).is_none() { return Some(Exp::Err); }
+                    match s { None => if mk { Exp::Is(R::ok()) } else { Exp::Err }, Some(s) => if s.groups.contains_key(&a[3]) { Exp::Err } else { Exp::Is(R::ok()) } }
+                }
+                "DESTROY" => {
+                    if n != 4 { return Some(Exp::Err); }
+                    match stream_of(m, db, &a[2]) { Err(()) => Exp::Err, Ok(None) => Exp::AnyOf(vec![Exp::Err, Exp::Is(R::Int(0))]), Ok(Some(s)) => Exp::Is(R::Int(s.groups.contains_key(&a[3]) as i64)) }
+                }
+                "SETID" => {
+                    if n != 5 { return None; }
+                    if a[4].as_slice() != b"$" && !incomplete_id(&a[4]) && parse_id(&a[4]).is_none() { return Some(Exp::Err); }
+                    match stream_of(m, db, &a[2]) { Err(()) | Ok(None) => Exp::Err, Ok(Some(s)) => if s.groups.contains_key(&a[3]) { Exp::Is(R::ok()) } else { Exp::Err } }
+                }
+                "DELCONSUMER" => {
+                    if n != 5 { return Some(Exp::Err); }
+                    match stream_of(m, db, &a[2]) {
+                        Err(()) => Exp::Err,
+                        Ok(None) => Exp::AnyOf(vec![Exp::Err, Exp::Is(R::Int(0))]),
+                        Ok(Some(s)) => match s.groups.get(&a[3]) { None => Exp::AnyOf(vec![Exp::Err, Exp::Is(R::Int(0))]), Some(g) => Exp::Is(R::Int(g.pel.values().filter(|e| e.consumer == a[4]).count() as i64)) },
+                    }
+                }
+                "CREATECONSUMER" => {
+                    if n != 5 { return Some(Exp::Err); }
+                    match stream_of(m, db, &a[2]) {
+                        Err(()) | Ok(None) => Exp::Err,
+                        Ok(Some(s)) => match s.groups.get(&a[3]) { None => Exp::Err, Some(g) => if g.consumers.contains(&a[4]) { Exp::Is(R::Int(0)) } else { Exp::AnyOf(vec![Exp::Is(R::Int(1)), Exp::Is(R::Int(0))]) } },
+                    }
+                }
+                _ => return None,
+            }
+        }
+        "XREADGROUP" => {
+            let p = match parse_xreadgroup(a) { Some(p) => p, None => return None };
+            let mut want = Vec::new();
+            let mut missing = false;
+            for (key, idb) in p.keys.iter().zip(p.ids.iter()) {
+                if idb.as_slice() != b">" { return None; } // history reads: not modelled
+                let s = match stream_of(m, db, key) { Err(()) => return Some(Exp::Err), Ok(s) => s };
+                // a missing key is an error in Redis; skipping it (and serving the others) is tolerated
+                let s = match s { None => { missing = true; continue; } Some(s) => s };
+                let g = match s.groups.get(&p.group) { None => return Some(Exp::Err), Some(g) => g };
+                let mut v = s.after(g.last_delivered);
+                if let Some(c) = p.count { v.truncate(c); }
+                if !v.is_empty() { want.push((key.clone(), v)); }
+            }
+            if missing { Exp::AnyOf(vec![Exp::Err, xread_exp(want)]) } else { xread_exp(want) }
+        }
+        "XACK" => {
+            if n < 4 { return Some(Exp::Err); }
+            let mut ids = BTreeSet::new();
+            for b in &a[3..] { match parse_id(b) { Some(id) => { ids.insert(id); } None => return Some(Exp::Err) } }
+            match stream_of(m, db, &a[1]) {
+                Err(()) => Exp::Err,
+                Ok(None) => Exp::Is(R::Int(0)),
+                Ok(Some(s)) => match s.groups.get(&a[2]) { None => Exp::AnyOf(vec![Exp::Is(R::Int(0)), Exp::Err]), Some(g) => Exp::Is(R::Int(ids.iter().filter(|id| g.pel.contains_key(id)).count() as i64)) },
+            }
+        }
+        "XPENDING" => {
+            if n != 3 && n != 6 && n != 7 { return None; }
+            let s = match stream_of(m, db, &a[1]) { Err(()) => return Some(Exp::Err), Ok(s) => s };
+            let g = match s.and_then(|s| s.groups.get(&a[2])) { None => return Some(Exp::AnyOf(vec![Exp::Err, Exp::Is(R::NilArr), Exp::Is(R::Nil)])), Some(g) => g };
+            if n == 3 { return Some(pending_summary_exp(g)); }
+            let (lo, hi) = match (bound(&a[3]), bound(&a[4])) { (Some(l), Some(h)) => (l, h), _ => return Some(Exp::Err) };
+            let count = match strict_i64(&a[5]) { Some(c) => c, None => return Some(Exp::Err) };
+            if count < 0 { return Some(Exp::AnyOf(vec![Exp::Err, any_empty()])); }
+            let who = a.get(6);
+            let rows: Vec<(Id, Bytes, i64, u64)> = if lo > hi { vec![] } else {
+                g.pel.range(lo..=hi).filter(|(_, e)| who.map_or(true, |w| &e.consumer == w)).take(count as usize)
+                    .map(|(id, e)| (*id, e.consumer.clone(), idle_ms(real_ns, e.last_delivery), e.count)).collect()
+            };
+            pending_rows_exp(rows)
+        }
+        "XCLAIM" => {
+            if n < 6 { return Some(Exp::Err); }
+            let min_idle = match strict_i64(&a[4]) { Some(v) if v >= 0 => v, Some(_) => return None, None => return Some(Exp::Err) };
+            let p = match parse_xclaim(a) { Some(p) => p, None => return None };
+            if p.force || p.other_opts { return None; }
+            let s = match stream_of(m, db, &a[1]) { Err(()) => return Some(Exp::Err), Ok(s) => s };
+            let s = match s { None => return Some(Exp::AnyOf(vec![Exp::Err, any_empty()])), Some(s) => s };
+            let g = match s.groups.get(&a[2]) { None => return Some(Exp::Err), Some(g) => g };
+            // ids are processed one after the other: a repeated id is claimed (and returned) again
+            // only if it passes the idle test again, i.e. only with a threshold of 0
+            let mut done = BTreeSet::new();
+            let mut claimed: Vec<Id> = Vec::new();
+            for id in &p.ids {
+                if let Some(e) = g.pel.get(id) {
+                    let idle = if done.contains(id) { 0 } else { idle_ms(real_ns, e.last_delivery) };
+                    if idle >= min_idle && s.entries.contains_key(id) { claimed.push(*id); done.insert(*id); }
+                }
+            }
+            if p.justid { Exp::Is(R::Arr(claimed.iter().map(|id| R::Bulk(id_str(*id))).collect())) }
+            else { entries_exp(claimed.iter().map(|id| entry_reply(*id, &s.entries[id])).collect()) }
+        }
+        _ => return None,
+    })
+}
+
+/// State transition; only called when the reply was acceptable and not an error.
+pub fn transition(m: &mut Model, db: usize, name: &str, a: &[Bytes], now: u64, actual: &R) {
+    let real_ns = now as i128 + m.real_off as i128;
+    let n = a.len();
+    let mut soft = false;
+    {
+        let d = &mut m.dbs[db];
+        let stream_mut = |d: &mut super::keyspace::Db, key: &Bytes| -> Option<*mut StreamM> { match d.map.get_mut(key) { Some(Entry { val: Val::Stream(s), .. }) => Some(s as *mut StreamM), _ => None } };
+        match name {
+            "XADD" => {
+                if let (Some((_, fields)), R::Bulk(b)) = (xadd_parts(a), actual) {
+                    if let Some(id) = parse_id(b) {
+                        let e = d.map.entry(a[1].clone()).or_insert_with(|| Entry { val: Val::Stream(StreamM::default()), deadline: None });
+                        if let Val::Stream(s) = &mut e.val {
+                            // the field list as sent; a repeated field name keeps every pair
+                            s.entries.insert(id, fields);
+                            s.last_id = id;
+                            if id > s.max_ever { s.max_ever = id; }
+                        }
+                    }
+                }
+            }
+            "XDEL" => {
+                if let Some(s) = stream_mut(d, &a[1]) { let s = unsafe { &mut *s }; for b in &a[2..] { if let Some(id) = parse_id(b) { s.entries.remove(&id); } } }
+            }
+            "XTRIM" => {
+                if let (Some(s), R::Int(k)) = (stream_mut(d, &a[1]), actual) { let s = unsafe { &mut *s }; for _ in 0..*k { let first = s.entries.keys().next().copied(); if let Some(f) = first { s.entries.remove(&f); } } }
+            }
+            "XGROUP" => {
+                match upper(&a[1]).as_str() {
+                    "CREATE" => {
+                        let e = d.map.entry(a[2].clone()).or_insert_with(|| Entry { val: Val::Stream(StreamM::default()), deadline: None });
+                        if let Val::Stream(s) = &mut e.val {
+                            let start = if a[4].as_slice() == b"$" { s.last_id } else if incomplete_id(&a[4]) { (dec_u64(&a[4]).unwrap(), 0) } else { parse_id(&a[4]).unwrap_or((0, 0)) };
+                            s.groups.insert(a[3].clone(), GroupM { last_delivered: start, ..Default::default() });
+                        }
+                    }
+                    "DESTROY" => { if let Some(s) = stream_mut(d, &a[2]) { unsafe { &mut *s }.groups.remove(&a[3]); } }
+                    "SETID" => {
+                        if let Some(s) = stream_mut(d, &a[2]) { let s = unsafe { &mut *s };
+                            let id = if a[4].as_slice() == b"$" { s.last_id } else if incomplete_id(&a[4]) { (dec_u64(&a[4]).unwrap(), 0) } else { parse_id(&a[4]).unwrap_or((0, 0)) };
+                            if let Some(g) = s.groups.get_mut(&a[3]) { g.last_delivered = id; }
+                        }
+                    }
+                    "DELCONSUMER" => {
+                        if let Some(s) = stream_mut(d, &a[2]) { if let Some(g) = unsafe { &mut *s }.groups.get_mut(&a[3]) { g.pel.retain(|_, e| e.consumer != a[4]); g.consumers.remove(&a[4]); } }
+                    }
+                    "CREATECONSUMER" => {
+                        if let Some(s) = stream_mut(d, &a[2]) { if let Some(g) = unsafe { &mut *s }.groups.get_mut(&a[3]) { g.consumers.insert(a[4].clone()); } }
+                    }
+                    _ => {}
+                }
+            }
+            "XREADGROUP" => {
+                if let Some(p) = parse_xreadgroup(a) {
+                    for key in &p.keys {
+                        if let Some(s) = stream_mut(d, key) { let s = unsafe { &mut *s };
+                            let ids: Vec<Id> = match s.groups.get(&p.group) { None => continue, Some(g) => { let mut v: Vec<Id> = s.entries.keys().filter(|k| **k > g.last_delivered).copied().collect(); if let Some(c) = p.count { v.truncate(c); } v } };
+                            let g = s.groups.get_mut(&p.group).unwrap();
+                            if !ids.is_empty() { g.consumers.insert(p.consumer.clone()); }
+                            for id in &ids {
+                                if !p.noack { g.pel.insert(*id, PelE { consumer: p.consumer.clone(), count: 1, last_delivery: real_ns }); }
+                                if *id > g.last_delivered { g.last_delivered = *id; }
+                            }
+                        }
+                    }
+                }
+            }
+            "XACK" => {
+                if let Some(s) = stream_mut(d, &a[1]) { if let Some(g) = unsafe { &mut *s }.groups.get_mut(&a[2]) { for b in &a[3..] { if let Some(id) = parse_id(b) { g.pel.remove(&id); } } } }
+            }
+            "XCLAIM" => {
+                if let (Some(p), Some(min_idle)) = (parse_xclaim(a), strict_i64(&a[4])) {
+                    if let Some(s) = stream_mut(d, &a[1]) { let s = unsafe { &mut *s };
+                        let present: BTreeSet<Id> = s.entries.keys().copied().collect();
+                        if let Some(g) = s.groups.get_mut(&a[2]) {
+                            let mut seen = BTreeSet::new();
+                            for id in &p.ids {
+                                if !seen.insert(*id) { continue; }
+                                let due = g.pel.get(id).map_or(false, |e| idle_ms(real_ns, e.last_delivery) >= min_idle);
+                                if !due { continue; }
+                                if !present.contains(id) {
+                                    // a pending id whose entry was deleted: dropped from the pending list by current
+                                    // Redis, still transferred by older ones; follow the implementation
+                                    soft = true;
+                                    continue;
+                                }
+                                let e = g.pel.get_mut(id).unwrap();
+                                e.consumer = a[3].clone();
+                                e.last_delivery = real_ns;
+                                if !p.justid { e.count += 1; }
+                                g.consumers.insert(a[3].clone());
+                            }
+                        }
+                    }
+                }
+            }
+            _ => {}
+        }
+    }
+    let _ = n;
+    if soft { m.soft_resync = true; }
 }
